@@ -234,6 +234,17 @@ ReconTrees(U, n, ts, unify, memo) == IF ts = <<>> THEN [u |-> U, memo |-> memo]
 TLMigrateM(U, l, n, unify, memo) == ReconTrees([U EXCEPT !.lists[l].ns = n], n, U.lists[l].trees, unify, memo)
 OpTLMigrate(U, l, n, unify) == COk(TLMigrateM(U, l, n, unify, <<>>).u)
 OpTLReconstruct(U, l, unify) == COk(ReconTrees(U, U.lists[l].ns, U.lists[l].trees, unify, <<>>).u)
+\* ns.clear() followed by reconstruct_taxon_namespace(): the documented way to rebuild a namespace that has
+\* accumulated unused taxa.  Between the two calls the closure is broken on purpose, so the pair is ONE action;
+\* it is only called on a namespace that no other container, free tree or data set uses (SoleUser).
+ClearNs(U, n) == [U EXCEPT !.ns[n].mem = <<>>]
+SoleUser(U, l) == LET n == U.lists[l].ns IN
+    /\ \A k \in 1..Len(U.lists) : k # l => U.lists[k].ns # n
+    /\ \A m \in 1..Len(U.mats) : U.mats[m].ns # n
+    /\ \A b \in 1..Len(U.arrs) : U.arrs[b].ns # n /\ U.arrs[b].sd # n
+    /\ \A t \in 1..Len(U.trees) : t \notin SeqToSet(U.lists[l].trees) => U.trees[t].ns # n
+    /\ U.ds.att # n
+OpTLClearReconstruct(U, l, unify) == OpTLReconstruct(ClearNs(U, U.lists[l].ns), l, unify)
 RECURSIVE UpdTrees(_, _, _)
 UpdTrees(U, n, ts) == IF ts = <<>> THEN U ELSE UpdTrees(TreeUpd([U EXCEPT !.trees[Head(ts)].ns = n], Head(ts)), n, Tail(ts))
 OpTLUpdate(U, l) == COk(UpdTrees(U, U.lists[l].ns, U.lists[l].trees))
@@ -411,6 +422,7 @@ Guard(U, a, x) ==     \* on a sane universe (Sane is checked separately: invaria
                                        \A k \in ListsOf(U, x.ts[i]) : x.nsarg # 0 /\ U.lists[k].ns = x.nsarg
       [] a = "TLMigrate"       -> HasList(U, x.l) /\ HasNs(U, x.n) /\ MayMoveList(U, x.l, x.n)
       [] a = "TLReconstruct"   -> HasList(U, x.l)
+      [] a = "TLClearReconstruct" -> HasList(U, x.l) /\ SoleUser(U, x.l)
       [] a = "TLUpdate"        -> HasList(U, x.l)
       [] a = "TreeMigrate"     -> HasTree(U, x.t) /\ HasNs(U, x.n) /\ IsFree(U, x.t)
       [] a = "TreeClone"       -> HasTree(U, x.t) /\ NsArgOk(U, x.nsarg)
@@ -474,6 +486,7 @@ Apply(U, a, x) ==
       [] a = "TLCtorTrees"     -> OpTLCtorTrees(U, x.ts, x.nsarg)
       [] a = "TLMigrate"       -> OpTLMigrate(U, x.l, x.n, x.unify)
       [] a = "TLReconstruct"   -> OpTLReconstruct(U, x.l, x.unify)
+      [] a = "TLClearReconstruct" -> OpTLClearReconstruct(U, x.l, x.unify)
       [] a = "TLUpdate"        -> OpTLUpdate(U, x.l)
       [] a = "TreeMigrate"     -> OpTreeMigrate(U, x.t, x.n, x.unify)
       [] a = "TreeClone"       -> OpTreeClone(U, x.t, x.nsarg)
@@ -553,6 +566,7 @@ Moves(P, a, x, Q) ==
       [] a = "TLRead"          -> MvSrc(P, Q, P.lists[x.l].ns, x.srcs, TreesAt(Q, x.l, Len(P.lists[x.l].trees) + 1, Len(x.srcs)))
       [] a = "TLMigrate"       -> <<MvTrees(P, Q, x.n, IF x.unify THEN "bylabel" ELSE "byidentity", P.lists[x.l].trees, P.lists[x.l].trees)>>
       [] a = "TLReconstruct"   -> <<MvTrees(P, Q, P.lists[x.l].ns, IF x.unify THEN "bylabel" ELSE "byidentity", P.lists[x.l].trees, P.lists[x.l].trees)>>
+      [] a = "TLClearReconstruct" -> <<MvTrees(ClearNs(P, P.lists[x.l].ns), Q, P.lists[x.l].ns, IF x.unify THEN "bylabel" ELSE "byidentity", P.lists[x.l].trees, P.lists[x.l].trees)>>
       [] a = "TLUpdate"        -> <<MvTrees(P, Q, P.lists[x.l].ns, "same", P.lists[x.l].trees, P.lists[x.l].trees)>>
       [] a = "TLGetSlice"      -> <<MvTrees(P, Q, P.lists[x.l].ns, "same", P.lists[x.l].trees, P.lists[x.l].trees)>>
       [] a = "TLRemoveAt"      -> <<MvTrees(P, Q, P.lists[x.l].ns, "same", P.lists[x.l].trees, P.lists[x.l].trees)>>
